@@ -138,7 +138,8 @@ class Lemma:
 class Logic:
     """Uninterpreted spec functions, axioms, macros and ghost globals shared by the contracts of a module."""
 
-    def __init__(self, funcs=None, axioms=(), macros=None, globals=None, lemmas=()):
+    def __init__(self, funcs=None, axioms=(), macros=None, globals=None, lemmas=(), defs=None):
+        self.defs = dict(defs or {})        # name -> ([(param, type)...], ret type, body expr): recursive definitions
         self.funcs = dict(funcs or {})      # name -> ([arg types], ret type)
         self.axioms = _clauses(axioms, "ax")
         self.macros = dict(macros or {})    # "name(a, b)" -> expr string
@@ -175,6 +176,9 @@ class Registry:
         lg = getattr(mod, "LOGIC", None)
         if lg is not None:
             self.logic.funcs.update(lg.funcs)
+            self.logic.defs.update(lg.defs)
+            for dn, (dparams, dret, dbody) in lg.defs.items():
+                self.logic.funcs[dn] = ([t for _, t in dparams], dret)
             self.logic.axioms.extend(lg.axioms)
             self.logic.macros.update(lg.macros)
             self.logic.globals.update(lg.globals)
